@@ -84,6 +84,10 @@ def _linalg_cases(tier):
             C.append((f"cholesky{b}{k}", "cholesky", [A(*b, "n", "n", kind=kind)], {}, (0,)))
             C.append((f"pinv{b}{k}", "pinv", [A(*b, "m", "n", kind=kind)], {}, (0,)))
             C.append((f"eigh{b}{k}", "eigh", [A(*b, "n", "n", kind=kind)], {}, (0,)))
+            C.append((f"eigh UPLO=U{b}{k}", "eigh", [A(*b, "n", "n", kind=kind)], {"UPLO": "U"}, (0,)))
+            C.append((f"eig{b}{k}", "eig", [A(*b, "n", "n", kind=kind)], {}, (0,)))
+            C.append((f"svd thin{b}{k}", "svd", [A(*b, "m", "n", kind=kind)], {"full_matrices": False}, (0,)))
+            C.append((f"svd values only{b}{k}", "svd", [A(*b, "m", "n", kind=kind)], {"compute_uv": False}, (0,)))
         # solve: every NumPy-2 shape class - matrix rhs with the same / no / broadcasting batch, 1-D vector rhs
         C.append((f"solve{b} A x B same batch", "solve", [A(*b, "n", "n"), A(*b, "n", "k")], {}, (0, 1)))
         C.append((f"solve{b} A x vector", "solve", [A(*b, "n", "n"), A("n")], {}, (0, 1)))
@@ -99,6 +103,12 @@ def _linalg_cases(tier):
                         continue
                     kw = {} if ax is None else {"axis": ax}
                     C.append((f"norm{shp} axis={ax} ord={ord_} {kind}", "norm", [A(*shp, kind=kind)] + ([("lit", ord_)] if ord_ is not None else []), kw, (0,)))
+    for shp, axes in ((("a", "b"), (None, (0, 1), (1, 0), (-2, -1))), (("a", "b", "c"), ((0, 2), (2, 0), (1, -1), (-1, 0)))):
+        for ax in axes:
+            for kind in ("real", "complex"):
+                for ord_ in ("nuc", "fro"):
+                    kw = {} if ax is None else {"axis": ax}
+                    C.append((f"norm{shp} axis={ax} ord={ord_} {kind}", "norm", [A(*shp, kind=kind), ("lit", ord_)], kw, (0,)))
     return C
 
 
@@ -112,9 +122,9 @@ def run_linalg(rep, tier):
         rep.violation("E3:linalg:load", "autograd/numpy/linalg.py", f"the module no longer loads on the abstract namespace: {e}", witness=False, solver_output=str(e))
         return
     cases = _linalg_cases(tier)
-    rep.bound(f"E3 linalg: {len(cases)} call forms (inv/det/slogdet/cholesky/pinv/eigh with 0..{2 if tier == 'quick' else 3} batch dimensions, real and complex; solve in every NumPy-2 shape class "
+    rep.bound(f"E3 linalg: {len(cases)} call forms (inv/det/slogdet/cholesky/pinv/eigh/eig/svd with 0..{2 if tier == 'quick' else 3} batch dimensions, real and complex; solve in every NumPy-2 shape class "
               "incl. broadcasting batches; norm over axis / axis pairs) enumerated; all dimension sizes symbolic")
-    rep.assume("NumPy-2 shape contracts of numpy.linalg in vlib/shapex.linalg_impls (inv, det, slogdet, cholesky, pinv, solve, eigh, norm): assumed; svd/eig/nuclear norm not modelled (uncovered)")
+    rep.assume("NumPy-2 shape contracts of numpy.linalg in vlib/shapex.linalg_impls (inv, det, slogdet, cholesky, pinv, solve, eigh, eig, svd, norm): assumed, audited against NumPy on concrete sizes in every run; nuclear norm and svd(full_matrices=True) raise / are not modelled")
     npaths = 0
     for label, name, spec, kwargs, argnums in cases:
         for a in argnums:
